@@ -16,6 +16,7 @@ def run(tier, t0):
         byteorder.run(f, rep, cfg, prop="C16", scope="all")
         eng = c16.run_b(f, rep, cfg)
         c16.run_c(f, rep, cfg, eng)
+        c16.run_d(f, rep, cfg, eng)
         capguard.run(f, rep, cfg, scope="encoding")
     rep.floor("byteorder_pairs", 100)
     rep.floor("error_word_sources", 6)
